@@ -53,7 +53,7 @@ def gen_case(rng, i):
     # URI parameters next to the target: the scheme and the port decide, a transport= parameter changes neither the default port nor
     # the security requirement
     up = rng.choice(["-", "-", "transport=tcp", "transport=udp", "transport=tls", "transport=TCP", "lr+transport=tcp+user=phone", "transport=ws", "lr"])
-    return ["k%d" % i, "c14", ",".join(unm), ",".join(facs), ",".join(pre), "%d:%d:%s:%s" % (us, ua, uport, up)]
+    return ["k%d" % i, "c14", ",".join(unm), ",".join(facs), ",".join(pre), "%d:%d:%s:%s:%d" % (us, ua, uport, up, rng.choice([0, 0, 0, 1, 2, 3]))]
 
 
 def gen_cases(rng, tier):
